@@ -130,10 +130,27 @@ def c05(run):
         gen += [("g_snm%d" % i, dict(names="Names3", sal="Sal1", methods=[m], nm="NMs", maxnames=3, beh="Beh2")) for i, m in enumerate(snm)]
     if run.tier == "thorough":
         gen.append(("g_nm4", dict(names="Names4", sal="Sal2", methods=nm, nm="NM4", beh="Beh2")))
-    return _exec_check(run, mc, gen, "mix", T(run, 500, 8000), sample=T(run, 3000, 40000),
+    def hammer(rng):
+        """Wide rule sets run again and again at their natural speed (no gates): a scheduler that hands the rules of a
+        stage to its goroutines must give every rule to exactly one of them in every single call."""
+        out = []
+        for i in range(T(run, 6, 60)):
+            n = rng.choice([17, 33, 34])
+            rules = [{"name": "r%d" % (j + 1), "sal": rng.choice([0, 0, 1, 2, -1]), "tpl": "A"} for j in range(n)]
+            k = rng.randint(1, n - 1)
+            m, extra = rng.choice([("ExecuteMixModel", {}), ("ExecuteMixModel", {}), ("ExecuteInverseMixModel", {}),
+                                   ("ExecuteNConcurrentMConcurrent", {"n": k, "m": n - k}), ("ExecuteNSortMConcurrent", {"n": 1, "m": n - 1}),
+                                   ("ExecuteNConcurrentMSort", {"n": n - 1, "m": 1})])
+            c = {"method": m, "via": "direct", "b": True, "names": [], "n": 0, "m": 0, "dag": [], "beh": {}, "tagset": [],
+                 "rep": T(run, 100, 400)}
+            c.update(extra)
+            out.append({"id": 3000000 + i, "target": rng.choice(["engine", "pool"]), "gated": False, "rules": rules, "calls": [c]})
+        return out
+    return _exec_check(run, mc, gen, "mix", T(run, 500, 8000), sample=T(run, 3000, 40000), extra=hammer,
                        rule="sessions enumerated by TLC from ExecMC (mix, inverse mix, the three N-M models and their selected "
                             "variants; <=3 (thorough: 4) rules, tied saliences, every (N,M) split incl. invalid ones, outcomes ok/fail) "
-                            "run under maximal-overlap gate steering on engine and pool, plus seeded random sessions (<=12 rules); "
+                            "run under maximal-overlap gate steering on engine and pool, plus seeded random sessions (<=12 rules, some "
+                            "16-34) and wide rule sets (17-34 rules) called 100 (thorough 400) times each at natural speed; "
                             "distinct = distinct (rules, calls, target)")
 
 
